@@ -9,7 +9,8 @@ import c12
 THEOREMS = ["Gen.linkage_spec", "Gen.callconv_spec", "Gen.private_fast",
             "Gen.Addr.variable_access_well_typed", "Gen.Addr.parameter_access_well_typed", "Gen.Addr.steps_are_the_typers",
             "Gen.Addr.variable_access_through_pointer_well_typed", "Gen.Addr.parameter_access_through_pointer_well_typed",
-            "Gen.Addr.stored_path_k", "Gen.Addr.trailing_run",
+            "Gen.Addr.stored_path_k", "Gen.Addr.trailing_run", "Gen.StructTypes.every_module_keeps_its_structures",
+            "Gen.StructTypes.prefix_unchanged",
             "Gen.Addr.stored_path", "Gen.Addr.peel_run", "Gen.Addr.runT_snd"]
 
 
@@ -68,6 +69,49 @@ def address_correspondence(rep, rng, thorough, dist):
     return n, accepted, agreeing
 
 
+PRIM_LLVM = {"i8": "i8", "u8": "i8", "char8": "i8", "i16": "i16", "u16": "i16", "i32": "i32", "u32": "i32", "i64": "i64",
+             "u64": "i64", "usize": "i64", "i128": "i128", "u128": "i128", "bool": "i1"}
+
+
+def member_pattern(t):
+    """regex for the LLVM type of a member written as `t` (None: not modelled here)"""
+    t = t.strip()
+    if t == "usize":
+        return "(i64|i32)"          # 32 bits for the wasm target
+    if t in PRIM_LLVM:
+        return re.escape(PRIM_LLVM[t])
+    m = re.fullmatch(r"\[(\d+)\](.*)", t)
+    if m:
+        inner = member_pattern(m.group(2))
+        return None if inner is None else r"\[%s x %s\]" % (m.group(1), inner)
+    if t.startswith("&") and not t.startswith("&["):
+        inner = member_pattern(t[1:])
+        return None if inner is None else inner + r"\*"
+    if re.fullmatch(r"[A-Z][A-Za-z0-9_]*", t):
+        return r"%" + re.escape(t) + r"(\.\d+)?"
+    return None
+
+
+def own_structure_types(src, ir):
+    """every structure / word that the module declares ITSELF and that its IR defines has the members it was declared with
+    (Gen.StructTypes.types_are_the_declarations); returns a list of problems"""
+    problems = []
+    defs = {}
+    for nm, body in re.findall(r"^%([A-Za-z_][A-Za-z0-9_]*)(?:\.\d+)? = type \{ ?(.*?) ?\}$", ir, re.M):
+        defs.setdefault(nm, []).append(body)
+    for _pub, kw, nm, body in re.findall(r"^(pub\s+)?(struct|word\d+)\s+([A-Za-z_][A-Za-z0-9_]*)\s*\{([^}]*)\}", src, re.M):
+        if nm not in defs:
+            continue
+        pats = [member_pattern(m.split(":", 1)[1]) for m in body.split(",") if ":" in m]
+        if any(p_ is None for p_ in pats):
+            continue
+        want = ", ".join(pats)
+        if not any(re.fullmatch(want, d) for d in defs[nm]):
+            problems.append("the module declares `%s %s {%s}` but its IR defines %%%s as { %s }" % (
+                kw, nm, " ".join(body.split()), nm, " } / { ".join(defs[nm])))
+    return problems
+
+
 def source_functions(src):
     """(name, pub) of every function *defined* (with a body) in a source text"""
     out = []
@@ -111,7 +155,7 @@ def main():
             for a in range(kk - 1, 0, -1):
                 b = r.below(a + 1)
                 order[a], order[b] = order[b], order[a]
-            jobs.append(("multi-module", "verify", [files[j] for j in order]))
+            jobs.append(("multi-module", "verify+mods", [files[j] for j in order]))
     # structure / word literals in every member order, with constant and non-constant members, nested and as constants
     import agggen
     expected_status = {}
@@ -153,8 +197,11 @@ def main():
         jobs.append(("ill-typed-aggregate", "verify", [("m.pn", src)]))
     for i in range(3000 if thorough else 200):
         jobs.append(("faulted", "verify", [("m.pn", faultgen.faulted_program(rng.fork("fault%d" % i)))]))
+    # (run, too: every module must use ITS structure / word / helper / constant - Gen.StructTypes.types_are_the_declarations)
     for i in range(600 if thorough else 60):
-        jobs.append(("private-name-clash", "verify", faultgen.clash_modules(rng.fork("clash%d" % i))))
+        cm, cstatus = faultgen.clash_modules_with_status(rng.fork("clash%d" % i))
+        expected_status[len(jobs)] = cstatus
+        jobs.append(("private-name-clash", "run+mods", cm))
     for name, src in faultgen.corpus():
         if name.startswith("tests/samples/valid") or name.startswith("examples"):
             jobs.append(("corpus", "verify", [(os.path.basename(name), src)]))
@@ -181,6 +228,9 @@ def main():
             problems.append("the program exits with status %s, the members of its literals add up to %d" % (hd.get("status"), expected_status[ji]))
         if hd.get("verify") != "ok":
             problems.append("LLVM tools reject the IR: " + hd.get("verify", "?"))
+        if hd.get("mods", "").startswith("h:") and len(hd["mods"].split(";")) == len(u):
+            for (unit_name, unit_src), mod_hex in zip(u, hd["mods"].split(";")):
+                problems.extend(own_structure_types(unit_src, bytes.fromhex(mod_hex[2:]).decode("utf-8", "replace")))
         if mode == "wasm" and hd.get("mods", "").startswith("h:"):
             for k, mod_hex in enumerate(hd["mods"].split(";")):
                 mod_ir = bytes.fromhex(mod_hex[2:]).decode("utf-8", "replace")
